@@ -1,3 +1,4 @@
+import BlockModes.Thm.C10
 import BlockModes.Glue.Wrapper
 import BlockModes.Impl.Ctr
 import BlockModes.Impl.Belt
@@ -209,6 +210,21 @@ theorem ctr_ks_injective (C : Cipher) (hC : C.Valid) (f : Flavor) (hw : f.w = 8 
   have := congrArg C.dec h
   rw [hC.dec_enc _ (hl _), hC.dec_enc _ (hl _)] at this
   exact ctrBlock_injective f hw iv i j hi hj this
+/-- **no reuse, histories whose seeks stay inside the keystream** (the full-strength property minus F2), in one statement:
+    (1) every observation of any such history is that of the reference machine, i.e. the byte at stream position `p` is XORed
+    with keystream byte `p` of the documented keystream and requests beyond the limit fail; and (2) two positions in different
+    blocks below the limit never share a keystream block. So no counter value serves two positions. -/
+theorem ctr_no_reuse_in_range (C : Cipher) (hC : C.Valid) (hbs : C.bs < 256) (f : Flavor) (hw : f.w = 8 * f.cs)
+    (hcs : 0 < f.cs) (k : Nat) (hk : 0 < k) (iv : Bytes) (hiv : iv.length = k * f.cs) (hblk : C.bs = k * f.cs)
+    (w : Nat) (ops : List SOp) (hv : ∀ o ∈ ops, o.Valid C.bs (2 ^ f.w - 1)) :
+    (Wr.runOps (Ctr.core C f) w (Wr.fromCore (Ctr.core C f) (Ctr.init C f iv)) ops).1
+      = (refRun C.bs (2 ^ f.w - 1) (ksByte C.bs (ctrKs C f iv)) 0 ops).1 ∧
+    (∀ i j, i < 2 ^ f.w → j < 2 ^ f.w → ctrKs C f iv i = ctrKs C f iv j → i = j) := by
+  refine ⟨C10.ctr_ops_coherent C hC hbs f hw hcs k hk iv hiv hblk w ops hv, ?_⟩
+  intro i j hi hj h
+  have hcs' : f.cs ≤ iv.length := by rw [hiv]; exact Nat.le_mul_of_pos_left _ hk
+  exact ctr_ks_injective C hC f hw iv (by rw [hiv, hblk]) hcs' i j hi hj h
+
 /-- **observation O4** (dependency code): the check of the consuming core-level one-shot `try_apply_keystream_partial` is *not*
     "the request fits" — the block count is taken with `%`. On the tiny core with two blocks remaining: a three-block request
     (a multiple of the block size, so the count is 0) proceeds, and a request of 7 bytes = 2 blocks, which fits, is refused.
